@@ -326,10 +326,24 @@ def collect_into(ctx, items, callee):
     return VecV(items)
 
 
-def map_key(k):
+def map_key(k, ctx=None, m=None):
+    """canonical key object for a map operation. Strings with symbolic bytes are admitted as keys when the caller passes the path
+    context and the map: equality with every stored key is decided (forking where the path condition leaves it open); the stored key
+    object is returned when equal, the new key itself when it differs from all of them. (The iteration order of an *ordered* map
+    that holds such a key is not modelled: iterating it raises Unsupported.)"""
     k = D(k)
     if is_sym(k):
         raise Unsupported('symbolic map key')
+    if ctx is not None and m is not None and (type(k) is SymStr or any(type(kk) is SymStr for kk, _ in m.items)):
+        for kk, _ in m.items:
+            if type(kk) is not SymStr and type(k) is not SymStr:
+                if kk == k:
+                    return kk
+                continue
+            e = sym_eq(ctx, kk, k)
+            if e is True or (e is not False and ctx.branch(e)):
+                return kk
+        return k
     if type(k) is SymStr:
         raise Unsupported('symbolic string as map key')
     return k
